@@ -130,6 +130,9 @@ func (t *StreamUnderlay) Close() error {
 	// Unblock any pending I/O before closing sessions.
 	t.conn.SetDeadline(time.Now())
 	t.baseUnderlay.Close()
+	// The event loop may have armed a new read timeout while the sessions
+	// were closing. Now that done is closed, wake it up again so it exits.
+	t.conn.SetReadDeadline(time.Now())
 	return nil
 }
 
@@ -364,6 +367,14 @@ func (t *StreamUnderlay) readOneSegment() (*segment, error) {
 
 	common.SetReadTimeout(t.conn, readOneSegmentTimeout)
 	defer common.SetReadTimeout(t.conn, 0)
+	// Close() closes done before it resets the read deadline for the last
+	// time. Checking done after arming the timeout guarantees that either
+	// this check or the read below observes the shutdown.
+	select {
+	case <-t.done:
+		return nil, stderror.WrapErrorWithType(io.ErrClosedPipe, stderror.NETWORK_ERROR)
+	default:
+	}
 
 	// Read encrypted metadata.
 	readLen := MetadataLength + cipher.DefaultOverhead
